@@ -31,6 +31,8 @@ type cfg struct {
 	Callers  int           `json:"callers"`
 	Backlog  int           `json:"max_backlog"`
 	Timeout  time.Duration `json:"timeout"`
+	Simple   bool          `json:"generic_pool_over_simple_strategy"`
+	Yields   int           `json:"yields_at_queue_points"`
 }
 
 var orderings = map[string]pool.Ordering{"random": pool.OrderingRandom, "fifo": pool.OrderingFIFO, "lifo": pool.OrderingLIFO}
@@ -43,8 +45,12 @@ func build(c cfg) core.Limiter {
 		}
 		return p
 	}
+	var st core.Strategy = strategy.NewPreciseStrategy(c.Limit)
+	if c.Simple {
+		st = strategy.NewSimpleStrategy(c.Limit)
+	}
 	dl, err := limiter.NewDefaultLimiter(limit.NewFixedLimit("c19", c.Limit, nil), 1e9, 1e9, 1e5, 100,
-		strategy.NewPreciseStrategy(c.Limit), limit.NoopLimitLogger{}, core.EmptyMetricRegistryInstance)
+		st, limit.NoopLimitLogger{}, core.EmptyMetricRegistryInstance)
 	if err != nil {
 		panic(err)
 	}
@@ -55,10 +61,29 @@ func build(c cfg) core.Limiter {
 	return p
 }
 
+// setYields widens the queue limiter's check->push / push->select / hand-off windows and the simple strategy's
+// check->add window with bounded yields (harmless where the code holds a lock across them).
+func setYields(n int) {
+	if n <= 0 {
+		limiter.SetVerifHook(nil)
+		strategy.SetVerifHook(nil)
+		return
+	}
+	f := func(string) {
+		for i := 0; i < n; i++ {
+			runtime.Gosched()
+		}
+	}
+	limiter.SetVerifHook(f)
+	strategy.SetVerifHook(func(string) { runtime.Gosched() })
+}
+
 func genCfg(r *rand.Rand) cfg {
 	c := cfg{Pool: []string{"fixed", "generic"}[r.IntN(2)], Ordering: []string{"random", "fifo", "lifo"}[r.IntN(3)], Limit: 1 + r.IntN(4)}
 	c.Backlog = 1 + r.IntN(8)
 	c.Callers = c.Limit + 1 + r.IntN(c.Backlog)
+	c.Simple = c.Pool == "generic" && r.IntN(2) == 0
+	c.Yields = []int{0, 100, 1500}[r.IntN(3)]
 	return c
 }
 
@@ -107,6 +132,8 @@ func virtualCase(t *testing.T, idx int64, r *rand.Rand) {
 	var holders, maxHolders atomic.Int64
 	over := atomic.Bool{}
 	var stuck []int
+	setYields(c.Yields)
+	defer setYields(0)
 	bubble(t, func(t *testing.T) {
 		p := build(c)
 		start := time.Now()
@@ -215,6 +242,8 @@ func stressCase(idx int64, r *rand.Rand) {
 	c.Timeout = time.Hour
 	c.Callers = c.Limit + 1 + r.IntN(c.Backlog)
 	iters := 300
+	setYields(c.Yields / 10)
+	defer setYields(0)
 	p := build(c)
 	var holders, maxHolders, progress, refused atomic.Int64
 	var wg sync.WaitGroup
